@@ -164,9 +164,19 @@ def draw_instance(draw, prog, profile, prop):
         cfg["mca"]["task_startup_iter"] = pick(draw, [1, 2, 4])
     if draw(sint(0, 3)) == 0:
         cfg["mca"]["runtime_keep_highest_priority_task"] = pick(draw, [0, 1])
+    if draw(sint(0, 3)) == 0:
+        # several virtual processes: tasks are placed on VP (placement key % nvp), schedulers work per VP
+        nvp, tpv = pick(draw, [2, 2, 3]), pick(draw, [1, 2, 4])
+        cfg["mca"]["runtime_vpmap"] = "rr:%d:%d:16" % (nvp, tpv)
+        cfg["threads"] = nvp * tpv
     if profile.get("ranks"):
         cfg["ranks"] = pick(draw, [2, 2, 3, 4])
-        cfg["threads"] = pick(draw, [1, 2, 3])
+        t = pick(draw, [1, 2, 3])
+        if "runtime_vpmap" not in cfg["mca"]:
+            cfg["threads"] = t
+        else:
+            cfg["mca"]["runtime_vpmap"] = "rr:2:1:16"      # keep multi-rank runs small: 2 VPs x 1 thread per rank
+            cfg["threads"] = 2
         cfg["rank_table"] = draw(st.lists(sint(0, 3), min_size=3, max_size=9))
         cfg["mca"]["runtime_comm_coll_bcast"] = pick(draw, [0, 1, 2])
         cfg["ts"] = pick(draw, [4, 4, 2000])
@@ -212,6 +222,7 @@ def make_test(args, workroot):
             for f in sorted(prog.features):
                 STATS.label("feature_" + f)
             STATS.label("backend_" + backend)
+            STATS.label("termdet_dynamic_fourcounter" if dynamic else "termdet_local")
             ninst = data.draw(sint(max(1, args.instances // 2), args.instances))
             for k in range(ninst):
                 G, cfg = draw_instance(data.draw, prog, profile, props[0])
